@@ -80,10 +80,15 @@ inductive OpKind
   | cancel (target : Nat)
 deriving DecidableEq, Repr, Inhabited
 
+/-- `squeue::Flags::has_unsupported` on the `IOSQE_*` bit set (bit 0 FIXED_FILE, 1 IO_DRAIN, 2 IO_LINK,
+    3 IO_HARDLINK, 4 ASYNC, 5 BUFFER_SELECT): everything but ASYNC is rejected. -/
+def hasUnsupported (bits : Nat) : Bool :=
+  bits % 2 == 1 || bits / 2 % 2 == 1 || bits / 4 % 2 == 1 || bits / 8 % 2 == 1 || bits / 32 % 2 == 1
+
 structure Sqe where
   ud : Nat
   op : OpKind
-  /-- any of FIXED_FILE, IO_DRAIN, IO_LINK, IO_HARDLINK, BUFFER_SELECT set -/
+  /-- `hasUnsupported` of the entry's flags -/
   bad : Bool
 deriving DecidableEq, Repr, Inhabited
 
